@@ -367,7 +367,56 @@ def rule_exit_scans(ctx):
     ctx.covered('R08.7', 'heartbeat exit scans: extent is the real particles, comparison direction and status code match the condition', n, floor=5, samples=samples)
 
 
+SUBSTEP_SCOPE = [('integrator.c', 'reb_integrator_part2'), ('integrator_mercurius.c', 'reb_mercurius_encounter_step'), ('integrator_trace.c', 'reb_integrator_trace_bs_step'),
+                 ('integrator_trace.c', 'reb_integrator_trace_step'), ('rebound.c', 'reb_check_exit'), ('integrator_bs.c', 'reb_integrator_bs_step'),
+                 ('simulationarchive.c', 'reb_simulationarchive_heartbeat')]
+
+
+def rule_direction(ctx):
+    """R08.8: the loops that catch up to a target time (user ODEs after an N-body step, MERCURIUS/TRACE encounter and
+    pericentre sub-steps), the exit test of integrate() and the snapshot cadence order times and spans in a way that is
+    valid for both signs of the step; every catch-up loop clamps its last sub-step to the target."""
+    from . import signs
+    n = 0
+    samples = []
+    for cfile, fname in SUBSTEP_SCOPE:
+        tu = cfront.load_tu(cfile)
+        fn = tu.func(fname)
+        k, ok = signs.check_function(ctx, 'R08.8', cfile, fn)
+        n += k
+        samples += ok[:1]
+        # catch-up loops: while (<time> < <target>) { ... advance ... } needs an overshoot clamp assigning target - time
+        for w in walk(cfront.body(fn)):
+            if w.get('kind') != 'WhileStmt':
+                continue
+            cond = render(w['inner'][0]).replace(' ', '')
+            if not (('r.t' in cond) and ('<' in cond) and ('t_needed' in cond or 'r.t*forward' in cond)):
+                continue
+            n += 1
+            body = w['inner'][1]
+            advances = [e for e in walk(body) if e.get('kind') == 'CallExpr' and callee_name(e) in ('reb_integrator_bs_step', 'reb_integrator_ias15_part2')]
+            anchor(advances, 'sub-step call inside the catch-up loop of %s' % fname)
+            clamp = False
+            for ifs in walk(body):
+                if ifs.get('kind') != 'IfStmt':
+                    continue
+                c = strip(ifs['inner'][0])
+                if c.get('kind') != 'BinaryOperator' or c['opcode'] not in ('>', '>='):
+                    continue
+                for a_ in walk(ifs['inner'][1]):
+                    if is_assign(a_) and a_['opcode'] == '=':
+                        rhs = render(a_['inner'][1]).replace(' ', '').strip('()')
+                        if rhs in ('t_needed-r.t', 'max_dt') and render(a_['inner'][0]).replace(' ', '') in ('dt', 'r.dt'):
+                            clamp = True
+            if not clamp:
+                ctx.report('R08.8', '%s:overshoot:%s' % (fname, callee_name(advances[0])), 'src/%s:%s %s' % (cfile, line_of(w), fname),
+                           'the loop advancing to the target time with %s has no overshoot test (if the next sub-step passes the target, shorten it to target - time): the state is left beyond the step boundary'
+                           % callee_name(advances[0]))
+    ctx.covered('R08.8', 'direction typing of time/step comparisons in the catch-up loops, the exit test and the snapshot cadence; overshoot clamp in every catch-up loop', n, floor=20, samples=samples)
+
+
 def run(ctx):
+    rule_direction(ctx)
     rule_exit_scans(ctx)
     rule_time_sums(ctx)
     rule_exit_machine(ctx)
